@@ -139,7 +139,7 @@ A(M("c06-lift-loop-silent", ["C06"], TT, "                if bp not in used:\n  
 A(M("c06-gap-direction", ["C06"], TT, "                if (\n                    not previous.is_connected(residue)\n                    and previous.chain == residue.chain\n                ):\n                    for k in range", "                if (\n                    not residue.is_connected(previous)\n                    and previous.chain == residue.chain\n                ):\n                    for k in range", ["gap-rule-agree", "numbering-fact"]))
 A(M("c08-lazy-filter", "C08", "parser.py", "        model: list(filter(lambda atom: atom.model == model, atoms))\n", "        model: filter(lambda atom: atom.model == model, atoms)\n", "late-binding"))
 A(M("c08-tree-filtered", "C08", "parser.py", "    coords = np.array([(atom.x, atom.y, atom.z) for atom in unique_atoms_list])", "    known = [atom for atom in unique_atoms_list if atom.occupancy is not None]\n    coords = np.array([(atom.x, atom.y, atom.z) for atom in known])", "kdtree-index-space"))
-A(M("c08-dup-kept-none-loses", "C08", "parser.py", "                unique_atoms[key].occupancy is None\n                or atom.occupancy > unique_atoms[key].occupancy", "                unique_atoms[key].occupancy is not None\n                and atom.occupancy > unique_atoms[key].occupancy", "occupancy-wins"))
+A(M("c08-dup-kept-none-loses", "C08", "parser.py", "                unique_atoms[key].occupancy is None\n                or atom.occupancy > unique_atoms[key].occupancy", "                unique_atoms[key].occupancy is not None\n                and atom.occupancy > unique_atoms[key].occupancy", ["occupancy-wins", "optional-occupancy"]))  # round 6: decided on the atoms returned
 A(M("c08-dup-lower-wins", "C08", "parser.py", "                or atom.occupancy > unique_atoms[key].occupancy", "                or atom.occupancy < unique_atoms[key].occupancy", "occupancy-wins"))
 A(M("c08-clash-alias-silent", "C08", "parser.py", "        if unique_atoms_list[i].model != unique_atoms_list[j].model:\n            continue", "        a, b = unique_atoms_list[i], unique_atoms_list[j]\n        if a.model != b.model:\n            continue", kind="silent"))
 A(M("c08-clash-drop-higher", "C08", "parser.py", "            atoms_to_keep.discard(j)\n        else:\n            atoms_to_keep.discard(i)", "            atoms_to_keep.discard(i)\n        else:\n            atoms_to_keep.discard(j)", "clash-loser"))
